@@ -29,13 +29,14 @@ type Ctx struct {
 	// fieldBufBad caches fieldBufferBad (escape rule)
 	fieldBufBad map[*types.Var]string
 	// simIdx caches, per function, which index expressions the effect normal form proves in range
-	scopeHelperMemo map[*types.Func]bool
-	happyMemo       map[*ast.FuncDecl][]spath
-	happyOK         map[*ast.FuncDecl]bool
-	synthObjs       []types.Object // objects the identifiers of a synthetic goal expression denote (propEntails)
-	simIdx          map[*ast.FuncDecl]map[*ast.IndexExpr]bool
-	simMapStore     map[*ast.FuncDecl]map[*ast.IndexExpr]bool
-	Meta            *metaSchemas
+	idOnceSimDecided bool // id-once was decided on the normal form (which includes "registered under the returned base")
+	scopeHelperMemo  map[*types.Func]bool
+	happyMemo        map[*ast.FuncDecl][]spath
+	happyOK          map[*ast.FuncDecl]bool
+	synthObjs        []types.Object // objects the identifiers of a synthetic goal expression denote (propEntails)
+	simIdx           map[*ast.FuncDecl]map[*ast.IndexExpr]bool
+	simMapStore      map[*ast.FuncDecl]map[*ast.IndexExpr]bool
+	Meta             *metaSchemas
 
 	decls    map[*types.Func]*ast.FuncDecl
 	obs      []*Obligation
